@@ -29,12 +29,12 @@ Proof. exact tokens_app. Qed.
 Theorem C09_reference : forall g s idx a b x y, bytes_ok a -> ref_decode g s idx a x = Some y ->
   ref_decode g s idx (a ++ b) x = ref_decode g s idx b y.
 Proof. exact ref_decode_app. Qed.
-(* C09 for Unmarshal of generated code, every schema of the feature set, every pair of byte strings (valid
+(* C09 for Unmarshal of generated code, every message type whose reachable types are in the feature set, every pair of byte strings (valid
    encodings of anything, in particular picobuf's own): if the pieces decode one after another without error into
    t1 and then t2, then the concatenation decodes in one call to exactly t2 - repeated fields appended across the
    boundary, sub-messages merged, maps overwritten per key, the last oneof member winning, nothing reset. *)
 Theorem C09_unmarshal_concat : forall s progs idx a b t0 t1 t2,
-  gen_all s = GOk progs -> tdec_applies s = true -> bytes_ok a -> bytes_ok b ->
+  gen_all s = GOk progs -> tdec_applies_at s idx = true -> bytes_ok a -> bytes_ok b ->
   pico_unmarshal progs idx a t0 = (None, t1) -> pico_unmarshal progs idx b t1 = (None, t2) ->
   pico_unmarshal progs idx (a ++ b) t0 = (None, t2).
 Proof. exact unmarshal_concat. Qed.
